@@ -58,6 +58,9 @@ type ent struct {
 	left, right  uint32
 	child        uint32
 	color        byte
+	// malformed name fields for the MSI digest ops (msi.go): garbage after the terminator, NameLength field override
+	pad        []uint16
+	nlOverride int // 0 = none; otherwise the value written to NameLength (use 0x10000 for 0)
 }
 
 type cfg struct {
@@ -467,7 +470,15 @@ func build(c *cfg, r *hx.Rng) []byte {
 			for x, u := range e.name {
 				le.PutUint16(d[2*x:], u)
 			}
+			for x, u := range e.pad {
+				if len(e.name)+1+x < 32 {
+					le.PutUint16(d[2*(len(e.name)+1+x):], u)
+				}
+			}
 			le.PutUint16(d[64:], uint16(2*(len(e.name)+1)))
+			if e.nlOverride != 0 {
+				le.PutUint16(d[64:], uint16(e.nlOverride))
+			}
 			switch {
 			case e == c.root:
 				d[66] = 5
@@ -1147,6 +1158,8 @@ func Impl() {
 				t.Insert(int(hx.Atoi(s)))
 			}
 			return "ok " + renderNode(t.Root)
+		case "dg", "sv":
+			return MsiHandle(f)
 		case "digest":
 			seq++
 			p := filepath.Join(tmp, fmt.Sprintf("d%d.msi", seq))
